@@ -153,6 +153,42 @@ func (d *D) Base(idx int, ctx *core.Ctx) *core.Scenario {
 		}
 	}
 	sc.Argv = argv
+	if idx%5 == 4 {
+		// archive-focused scenario: several members, where formatting makes an
+		// early .evy member grow or shrink and other members (evy and non-evy) follow
+		grow := []string{
+			"if true\nprint 1\nprint 2\nprint 3\nprint 4\nprint 5\nend\n",
+			"for i:=range 3\nfor j:=range 2\nprint i j\nprint i+j\nend\nend\n",
+			"func f a:num\nprint a\nprint a*2\nprint a*3\nend\nf 1\n",
+			"x:=1\ny:=2\nz:=3\nprint x y z\nwhile x<3\nx=x+1\nprint x\nend\n",
+		}
+		shrink := []string{"print     1\n\n\n\n\nprint     2\n", "x   :=   1\nprint       x\n\n\n"}
+		same := []string{"print 1\n", "x := 1\nprint x\n"}
+		ar := &txtar.Archive{}
+		if r.Chance(0.5) {
+			ar.Comment = []byte("a test case\n")
+		}
+		n := r.Range(2, 4)
+		for j := 0; j < n; j++ {
+			var name, data string
+			switch r.Intn(5) {
+			case 0, 1:
+				name, data = fmt.Sprintf("m%d.evy", j), grow[r.Intn(len(grow))]
+			case 2:
+				name, data = fmt.Sprintf("m%d.evy", j), shrink[r.Intn(len(shrink))]
+			case 3:
+				name, data = fmt.Sprintf("m%d.evy", j), same[r.Intn(len(same))]
+			default:
+				name, data = []string{"want.txt", "notes.md", "out.svg"}[r.Intn(3)], "a\nb\nc\nd\ne\n"
+			}
+			ar.Files = append(ar.Files, txtar.File{Name: name, Data: []byte(data)})
+		}
+		flagArg := []string{"-w", "-w", "-c"}[r.Intn(3)]
+		sc.Files = []core.FileSpec{{Name: "case.txtar", Mode: modes[r.Intn(len(modes))], Content: string(txtar.Format(ar))}}
+		sc.Argv = []string{"fmt", flagArg, "case.txtar"}
+		sc.Stdin = ""
+		sc.Kind = "fmt-txtar"
+	}
 	return sc
 }
 
